@@ -79,6 +79,11 @@ def cases(tier):
 
 
 def run_case(case, variant):
+    # "<variant>-legacy": the pool is an httpcore.HTTPProxy / SOCKSProxy object (their own __init__ and create_connection)
+    # instead of ConnectionPool(proxy=httpcore.Proxy(...))
+    full_variant = variant
+    legacy = variant.endswith("-legacy")
+    variant = variant.split("-")[0]
     kind, cred, ph, origin, rh, body, reply = case[:7]
     ext = dict(EXTS[case[7]]) if len(case) > 7 else {}
     scheme, host, port = origin
@@ -119,7 +124,15 @@ def run_case(case, variant):
     cls = httpcore.ConnectionPool if variant == "sync" else httpcore.AsyncConnectionPool
     pobj = httpcore.Proxy(purl, auth=cred, headers=ph if kind in ("http", "https") else None,
                           ssl_context=sim.RecordingSSLContext("proxy") if kind == "https" else None)
-    pool = cls(ssl_context=sim.RecordingSSLContext("origin"), proxy=pobj, network_backend=w.backend)
+    if not legacy:
+        pool = cls(ssl_context=sim.RecordingSSLContext("origin"), proxy=pobj, network_backend=w.backend)
+    elif kind in ("http", "https"):
+        lcls = httpcore.HTTPProxy if variant == "sync" else httpcore.AsyncHTTPProxy
+        pool = lcls(proxy_url=purl, proxy_auth=cred, proxy_headers=ph, ssl_context=sim.RecordingSSLContext("origin"),
+                    proxy_ssl_context=sim.RecordingSSLContext("proxy") if kind == "https" else None, network_backend=w.backend)
+    else:
+        lcls = httpcore.SOCKSProxy if variant == "sync" else httpcore.AsyncSOCKSProxy
+        pool = lcls(proxy_url=purl, proxy_auth=cred, ssl_context=sim.RecordingSSLContext("origin"), network_backend=w.backend)
     url = f"{scheme}://{host}" + (f":{port}" if port else "") + "/t/tok?x=1"
     result = []
     method = "POST" if body is not None else "GET"
@@ -147,8 +160,8 @@ def run_case(case, variant):
     out = []
 
     def bad(k, msg, **sigx):
-        out.append({"oracle": "C11." + k, "message": f"{msg} | variant={variant} proxy={kind} cred={cred} proxy_headers={ph} origin={origin} req_headers={req_headers} body={body} reply={reply} extensions={ext}",
-                    "signature": dict({"harness": "proxyhop", "kind": k, "proxy": kind}, **sigx), "case": {"case": repr(case), "variant": variant}})
+        out.append({"oracle": "C11." + k, "message": f"{msg} | variant={full_variant} proxy={kind} cred={cred} proxy_headers={ph} origin={origin} req_headers={req_headers} body={body} reply={reply} extensions={ext}",
+                    "signature": dict({"harness": "proxyhop", "kind": k, "proxy": kind}, **sigx), "case": {"case": repr(case), "variant": full_variant}})
 
     if res[0] != "ok":
         bad("harness-" + res[0], f"program did not finish: {res}")
@@ -310,7 +323,7 @@ def run_case(case, variant):
 def _job(chunk):
     out, n, classes = [], 0, set()
     for case in chunk:
-        for variant in ("sync", "async"):
+        for variant in ("sync", "async", "sync-legacy", "async-legacy"):
             n += 1
             v = run_case(case, variant)
             out += v[:3]
@@ -337,7 +350,7 @@ def check(tier="quick", seed=0, workers=None, only=None):
             classes |= cl
     cov = {"evaluations": total, "distinct_nontrivial": len(classes), "exhaustive": True,
            "rule": ("full product proxy kind x credentials x proxy headers (incl. case-insensitive collisions) x origin x request headers x body x proxy reply "
-                    "(10 CONNECT replies; SOCKS method x auth x 11 connect replies), sync and async; IP-literal origins (IPv6 with and without port, IPv4); "
+                    "(10 CONNECT replies; SOCKS method x auth x 11 connect replies), sync and async, pool built as ConnectionPool(proxy=Proxy(...)) and as an HTTPProxy / SOCKSProxy object; IP-literal origins (IPv6 with and without port, IPv4); "
                     "every case whose reply lets the exchange proceed (and one refusal) again with the sni_hostname and the target request extension; distinct class = (kind, creds?, proxy headers, scheme, request headers, body?, reply, violated?)"),
            "samples": [{"case": repr(c)[:300]} for c in allc[:: max(1, len(allc) // 5)][:5]], "cases": len(allc)}
     return {"level": "exploration", "coverage": cov, "violations": viols,
